@@ -1055,6 +1055,14 @@ fn extract<'tcx>(tcx: TyCtxt<'tcx>, crate_name: &str, is_bin: bool) -> J {
         let mut b = body_json(tcx, def, body);
         b.set("kind", J::s(kname));
         {
+            let proms = tcx.promoted_mir(did);
+            let mut pj = Vec::new();
+            for pb in proms.iter() {
+                pj.push(body_json(tcx, def, pb));
+            }
+            b.set("promoted", J::Arr(pj));
+        }
+        {
             let (_, _, m) = span_info(tcx, tcx.def_span(did));
             b.set("exp", J::Arr(m.into_iter().map(J::Str).collect()));
         }
